@@ -132,6 +132,35 @@ CLAIMED["C02"] = dict(
     technique="algebraic value numbering of the assembly kernels on a symbolic micro-instance; comparison with defining sums",
 )
 
+CLAIMED["C06"] = dict(
+    category="proof",
+    text="Region.reload is evaluated from source on symbolic, arbitrarily distorted cells (nodal coordinates, reference gradients with "
+    "the zero-sum property of C04, weights all generators; dims 1-3): dXdr, drdX (inverse), dV = det * w, reproduction of constants "
+    "and linear functions by dhdX, push-forward of the reference hessian, uniform evaluation of the first cell; the negative-volume "
+    "warning is reached iff some dV < 0 (both sign cases via an order oracle); Field / FieldPlaneStrain / FieldAxisymmetric "
+    "interpolate, grad, hess, extract against their defining sums (zero padding, F33 = 1 + u_r/R with the radial component and "
+    "coordinate at index 1); every Region* template (25 discovered, evaluated with Region.__init__ intercepted) pairs its element "
+    "with a default rule whose documented exactness covers the degree of products of the element's gradients (from C04's polynomials).",
+    design_ref="DESIGN.md section 3, C06",
+    note="Not decided (sums over runtime data; they follow from these identities with C04 and C05): volumes summing to the geometric "
+    "volume on a concrete mesh, equality across element families, rigid-motion invariance, float32 copies. Reproduction of "
+    "higher-order polynomials on affine cells follows from the push-forward identities and C04's completeness.",
+    technique="algebraic value numbering of Region.reload and the field kernels on symbolic cells; degree computation on the element polynomials",
+)
+CLAIMED["C10"] = dict(
+    category="proof",
+    text="On the symbolic micro-instance with an arbitrary hyperelastic energy: plane-strain nodal forces are the derivative of the energy "
+    "of the unit-thickness 3D slab with suppressed out-of-plane displacement; axisymmetric nodal forces are the derivative of "
+    "sum W(F) 2 pi R dA with F33 = 1 + u_r/R; the condensed nearly-incompressible body's residual equals the displacement residual of "
+    "the explicit (u, p, J) formulation with cell-wise constant p, J at the solution of the p- and J-equations (which vanish identically "
+    "there), the settled state is J = v/V, p = bulk (J - 1), and _extract performs the exact Newton update J <- (h:du + v)/V, "
+    "p <- bulk (J - 1); a uniform region assembles the same vector and matrix as the general region on identical cells.",
+    design_ref="DESIGN.md section 3, C10",
+    note="Not decided: that both formulations converge to equal numbers (iteration and solver accuracy) and the revolved-3D limit of "
+    "axisymmetric models. Stiffness equality follows from C01 (matrix = derivative of these vectors).",
+    technique="algebraic value numbering; total derivative of an energy functional; substitution of the condensed solution",
+)
+
 NOT_APPLICABLE = {}
 
 TODO_REASON = "check not built yet in this session (static rule designed in DESIGN.md; will be claimed once its checker is committed)"
